@@ -251,7 +251,7 @@ func c19CheckBuild(c *Check, root string, f family, vname string, r api.BuildRes
 	// 6. inputs: exactly the files read, exact sizes, resolved imports
 	expectInputs := map[string]bool{}
 	for name := range f.files {
-		skip := name == "package.json"
+		skip := name == "package.json" || name == "tsconfig.json" || strings.HasSuffix(name, "/package.json")
 		for _, u := range f.unread {
 			if u == name {
 				skip = true
@@ -265,6 +265,9 @@ func c19CheckBuild(c *Check, root string, f family, vname string, r api.BuildRes
 		if strings.HasPrefix(in, "<") || strings.Contains(in, "<runtime>") {
 			continue
 		}
+		if strings.HasPrefix(in, "(disabled):") && f.files[strings.TrimPrefix(in, "(disabled):")] != "" {
+			continue // a file switched off by a "browser" map: listed under this pseudo path with an empty module
+		}
 		if !expectInputs[in] {
 			viol("metafile lists an input that is not part of the bundle", map[string]interface{}{"detail": in})
 			continue
@@ -277,6 +280,17 @@ func c19CheckBuild(c *Check, root string, f family, vname string, r api.BuildRes
 		for in := range expectInputs {
 			if _, ok := m.Inputs[in]; !ok {
 				viol("file read into the bundle is missing from metafile inputs", map[string]interface{}{"detail": in})
+			}
+		}
+	}
+	// every resolved (non-external) import of an input names another input of the bundle
+	for in, mi := range m.Inputs {
+		for _, im := range mi.Imports {
+			if im.External || strings.Contains(im.Path, "<runtime>") {
+				continue
+			}
+			if _, ok := m.Inputs[im.Path]; !ok {
+				viol("metafile input imports a path that is not an input of the bundle", map[string]interface{}{"detail": in + " -> " + im.Path})
 			}
 		}
 	}
